@@ -1862,8 +1862,10 @@ class Array:
         labels = self.get_leg_labels()
         res.iset_leg_labels([labels[a] for a in keep])
 
-        res._data = [np.squeeze(t, axis=axes).copy() for t in self._data]
-        res._qdata = np.asarray(self._qdata[:, np.array(keep)], order='C')
+        # (blocks stored in an empty charge block of a squeezed leg have size 0: nothing to squeeze there)
+        stored = _without_zero_size_blocks(self)
+        res._data = [np.squeeze(t, axis=axes).copy() for t in stored._data]
+        res._qdata = np.asarray(stored._qdata[:, np.array(keep)], order='C')
         # res._qdata_sorted doesn't change
         return res
 
